@@ -25,6 +25,7 @@ import (
 // (generated once with go-ethereum; the engine does not decode RLP, see
 // svModel_DecodeTransaction): two locks (5 and 7 wei) and two redeems (3, 4).
 type svExtTx struct {
+	create bool // contract creation: no recipient
 	raw    []byte
 	nonce  uint64
 	value  int64
@@ -44,6 +45,9 @@ var svExtTxs = []svExtTx{
 		nonce: 3, value: 0, data: ethcmn.FromHex("db006a750000000000000000000000000000000000000000000000000000000000000003"), amount: 3},
 	{raw: ethcmn.FromHex("f8840401830186a094c0ffee0000000000000000000000000000c0ffee80a4db006a7500000000000000000000000000000000000000000000000000000000000000042ca0dd0bfbbc4f5a689f619d28ba251e2ff34ca60953146b6ce897860cc97efeb50fa0124e7644e273107b5ccde1a862c885032a97188877662cd65875ecdab52075c6"),
 		nonce: 4, value: 0, data: ethcmn.FromHex("db006a750000000000000000000000000000000000000000000000000000000000000004"), amount: 4},
+	// a contract creation (no recipient) whose data is the lock selector
+	{raw: ethcmn.FromHex("f8500501830186a0800984f83d08ba2ba08f70ffed430c075f0aaab7c47c64ce3ea140a063753218615b598be2f74fbec1a0128816f4cc8bb75dc87c2a78319ab789c423b78b8e74d03b322efc023d003bec"),
+		nonce: 5, value: 9, data: ethcmn.FromHex("f83d08ba"), lock: true, amount: 9, create: true},
 }
 
 var svGarbageExt = []byte{0x01, 0x02, 0x03}
@@ -58,7 +62,7 @@ func svExtOf(raw []byte) *svExtTx {
 }
 
 // svModel_DecodeTransaction stands for the RLP decoding of a raw Ethereum
-// transaction: the four transactions above decode to their content, any other
+// transaction: the five transactions above decode to their content, any other
 // byte string is refused (go-ethereum's decoder returns an error for it).
 //
 // sv:models github.com/Oneledger/protocol/chains/ethereum.DecodeTransaction
@@ -67,8 +71,11 @@ func svModel_DecodeTransaction(data []byte) (*ethtypes.Transaction, error) {
 	if x == nil {
 		return nil, errors.New("Unable to decode Bytes")
 	}
-	to := svEthContract
-	return ethtypes.NewTx(&ethtypes.LegacyTx{Nonce: x.nonce, To: &to, Value: big.NewInt(x.value), Gas: 100000, GasPrice: big.NewInt(1), Data: x.data}), nil
+	to := &svEthContract
+	if x.create {
+		to = nil
+	}
+	return ethtypes.NewTx(&ethtypes.LegacyTx{Nonce: x.nonce, To: to, Value: big.NewInt(x.value), Gas: 100000, GasPrice: big.NewInt(1), Data: x.data}), nil
 }
 
 // sv:models github.com/Oneledger/protocol/chains/ethereum.VerifyLock
@@ -230,13 +237,13 @@ func svPreETH(pre *svEthPre, kind int) func(e *svEnv) {
 }
 
 func svAnyExt(name string) []byte {
-	switch c := sv.Choice(name, 6); c {
-	case 4:
-		return svGarbageExt
+	switch c := sv.Choice(name, 7); c {
 	case 5:
+		return svGarbageExt
+	case 6:
 		return []byte{}
 	default:
-		return svExtTxs[c].raw
+		return svExtTxs[c].raw // two locks, two redeems, a contract creation
 	}
 }
 
@@ -278,7 +285,7 @@ func svVoteCount(votes []int, v int) int {
 // SV_C15_handlers: one ETH_LOCK, ETH_REDEEM or finality report through the real
 // txDeliverer.
 //
-// sv:bounds 4 witnesses (the 3 parties and one more address), threshold floor(2*4/3)+1 = 3; a tracker for the lock of 5 or the redeem of 3 absent, ongoing with recorded votes (quick: 8 representative vectors in every rotation over the slots; thorough: every combination; state as the votes imply), in the passed or in the failed store, owner party A (thorough: any); kinds: lock / redeem with any party as locker / owner and the external transaction one of two locks, two redeems, garbage bytes or empty; report by any party for either tracker name, any vote index (symbolic int64), success or failure, Locker field the owner or another party; ETH balances symbolic; the shared tracker store's selected prefix (in-memory residue) ongoing, failed or passed; mempool-admitted regime
+// sv:bounds 4 witnesses (the 3 parties and one more address), threshold floor(2*4/3)+1 = 3; a tracker for the lock of 5 or the redeem of 3 absent, ongoing with recorded votes (quick: 8 representative vectors in every rotation over the slots; thorough: every combination; state as the votes imply), in the passed or in the failed store, owner party A (thorough: any); kinds: lock / redeem with any party as locker / owner and the external transaction one of two locks, two redeems, a contract creation carrying the lock selector, garbage bytes or empty; report by any party for either tracker name, any vote index (symbolic int64), success or failure, Locker field the owner or another party; ETH balances symbolic; the shared tracker store's selected prefix (in-memory residue) ongoing, failed or passed; mempool-admitted regime
 // sv:outside ERC20 lock / redeem; the RLP and ABI decoding of the external transaction (models svModel_DecodeTransaction, svModel_VerifyLock, svModel_StringTOABI, svModel_getSignFromName; the byte strings are real transactions and the native replay decodes them with go-ethereum); block-end tracker transitions; more than 4 witnesses (SV_C15_addvote / SV_C15_threshold cover 1..5 at the tracker level); histories
 // sv:goal a report changes ETH holdings only when its own vote makes the count cross the threshold: a lock then mints exactly the locked amount to the tracker's owner (whatever the report names as locker) and raises the supply counter by the same amount, a redeem failure refunds exactly the redeemed amount to the owner; a vote counts only from the witness recorded at the given index that has not voted; reports on a decided tracker change nothing; a lock creates a tracker (owner = locker, no votes, no mint) only when no ongoing or passed tracker has that external transaction; a redeem debits the owner and the counter by exactly the amount and creates the tracker only when none exists in any store; the supply counter always equals the ETH held by the parties
 func SV_C15_handlers() {
